@@ -202,9 +202,12 @@ impl Check for C01 {
 		Level::Exploration
 	}
 	fn num_cases(&self, _tier: Tier) -> u64 {
-		f1_cases() + fx_cases() + f2_cases() + f3_cases()
+		f1_cases() + fx_cases() + f2_cases() + f3_cases() + 1
 	}
 	fn describe(&self, tier: Tier, idx: u64) -> String {
+		if idx == f1_cases() + fx_cases() + f2_cases() + f3_cases() {
+			return "F5 output stage: a DC sound with (left, right) in a lattice of in-range / over-full-scale / huge values x volume {0 dB, +20 dB, +1000 dB} x 1..8 output channels".into();
+		}
 		let mut i = idx;
 		if i < f1_cases() {
 			let (streaming, len, sl, lp) = dec_f1(i);
@@ -237,6 +240,9 @@ impl Check for C01 {
 		)
 	}
 	fn sig_hint(&self, _tier: Tier, idx: u64) -> String {
+		if idx == f1_cases() + fx_cases() + f2_cases() + f3_cases() {
+			return "F5 output stage".into();
+		}
 		let mut i = idx;
 		if i < f1_cases() {
 			let (streaming, len, sl, lp) = dec_f1(i);
@@ -253,7 +259,7 @@ impl Check for C01 {
 		"F3 history".into()
 	}
 	fn rule(&self) -> String {
-		"F1: {static, streaming} x length {0,1,2,5} x slice {none, empty, inner, inverted, beyond the data} x loop {none, whole, empty, inverted, beyond, end==len} x sound rate x start position {0,1,len-1,len,len+3} x reverse x rate {1,-1,0,0.5,3} x 18 handle commands with boundary arguments; FX: 14 extreme finite values (1e9, 1e300, +-1e12 s, +-1e30 dB, 1e15 samples) x {static, streaming}, one per case; F2: 9 effect families, each parameter at documented min / max / default / 0 / just outside, x sample rate {8000, 44100, 192000} x 5 input signals x callbacks {1, ibs, 2*ibs+1}; F3: all API histories to depth 4 (5) over 16 letters with all capacities 1, and with all capacities 0; F4: every depth-3 history with 1..8 channels (mono must be the mean of the stereo rendering, extra channels silent). Oracle = the callback monitors. non-trivial = callbacks that produced non-silent audio or ran after at least one command".into()
+		"F1: {static, streaming} x length {0,1,2,5} x slice {none, empty, inner, inverted, beyond the data} x loop {none, whole, empty, inverted, beyond, end==len} x sound rate x start position {0,1,len-1,len,len+3} x reverse x rate {1,-1,0,0.5,3} x 18 handle commands with boundary arguments; FX: 14 extreme finite values (1e9, 1e300, +-1e12 s, +-1e30 dB, 1e15 samples) x {static, streaming}, one per case; F2: 9 effect families, each parameter at documented min / max / default / 0 / just outside, x sample rate {8000, 44100, 192000} x 5 input signals x callbacks {1, ibs, 2*ibs+1}; F3: all API histories to depth 4 (5) over 16 letters with all capacities 1, and with all capacities 0; F4: every depth-3 history with 1..8 channels (mono must be the mean of the stereo rendering, extra channels silent); F5: the output stage alone: DC frames (l, r) over {0, +-0.5, +-1.5, +-3e38}^2 x volume {0, +20, +1000 dB} x 1..8 channels. Oracle = the callback monitors. non-trivial = callbacks that produced non-silent audio or ran after at least one command".into()
 	}
 	fn assumptions(&self) -> Vec<String> {
 		vec![
@@ -269,6 +275,10 @@ impl Check for C01 {
 		300_000
 	}
 	fn run_case(&self, tier: Tier, idx: u64, ctx: &mut Ctx) {
+		if idx == f1_cases() + fx_cases() + f2_cases() + f3_cases() {
+			f5(ctx);
+			return;
+		}
 		let mut i = idx;
 		if i < f1_cases() {
 			let (streaming, len, sl, lp) = dec_f1(i);
@@ -959,4 +969,58 @@ fn f3(tier: Tier, zero_caps: bool, l0: u8, l1: u8, ctx: &mut Ctx) {
 		}
 	}
 	rec(&mut letters, depth, zero_caps, ctx);
+}
+
+// ---------------------------------------------------------------------------------------------
+// F5: the output stage (clamp, NaN guard, channel layout) on over-full-scale and overflowing frames
+
+fn f5(ctx: &mut Ctx) {
+	let vals = [0.0f32, 0.5, -0.5, 1.5, -1.5, 3.0e38, -3.0e38];
+	for &l in &vals {
+		for &r in &vals {
+			for db in [0.0f32, 20.0, 1000.0] {
+				let render = |ch: u16, ctx: &mut Ctx| -> Option<Vec<f32>> {
+					ctx.evals += 1;
+					let mut m = rig::manager(8, 2, rig::caps(1), MainTrackBuilder::new());
+					let data = rig::static_data(8, vec![Frame::new(l, r); 4]).loop_region(Region::from(..)).volume(db);
+					let _h = m.play(data).ok()?;
+					let mut out = vec![];
+					for n in [1usize, 3] {
+						let mut buf = vec![0.0f32; n * ch as usize];
+						let rep = rig::callback(&mut m, &mut buf, n, ch);
+						if !rep.ok() {
+							rig::report_cb(ctx, &rep, "F5 output stage", &|| format!("frame ({:e}, {:e}) volume {} dB, {} channel(s)", l, r, db, ch));
+							return None;
+						}
+						out.extend(buf);
+					}
+					Some(out)
+				};
+				let Some(st) = render(2, ctx) else { continue };
+				for ch in [1u16, 3, 4, 5, 6, 7, 8] {
+					let Some(o) = render(ch, ctx) else { continue };
+					for f in 0..st.len() / 2 {
+						let (a, b) = (st[2 * f], st[2 * f + 1]);
+						let ok = if ch == 1 {
+							o[f] == (a + b) / 2.0
+						} else {
+							o[f * ch as usize] == a && o[f * ch as usize + 1] == b && o[f * ch as usize + 2..(f + 1) * ch as usize].iter().all(|x| *x == 0.0)
+						};
+						if !ok {
+							ctx.fail(
+								if ch == 1 { "mono output is not the mean of left and right :: F5".to_string() } else { "multi-channel output: first two channels differ from the stereo rendering or extra channels are not silent :: F5".to_string() },
+								format!("frame ({:e}, {:e}) volume {} dB channels {}: stereo ({}, {}) got {:?}", l, r, db, ch, a, b, &o[f * ch as usize..(f + 1) * ch as usize]),
+							);
+							break;
+						}
+					}
+				}
+				if l != 0.0 || r != 0.0 {
+					ctx.nontrivial_extra += 1;
+				}
+				ctx.state(hash64(&(l.to_bits(), r.to_bits(), db.to_bits())));
+			}
+		}
+	}
+	ctx.outcome(hash64(&"f5"));
 }
